@@ -80,7 +80,8 @@
 (* Deviations that are NOT switches (design level, reported as DRIFT when the code changes): *)
 (*   KeepsQuoting (">From " is served as stored; mbox(5) readers delete the quoting),        *)
 (*   RawFromSplits (an unquoted "From " line in an mbox body starts a message),              *)
-(*   CrlfBlankKept (a CRLF blank line before a From_ line is not dropped), HeaderSpacing     *)
+(*   CrlfBlankKept (a CRLF blank line before a From_ line is not dropped), Refolds (header   *)
+(*   lines over 78 columns are folded again by the generator), HeaderSpacing                 *)
 (*   ("Subject:x" is served "Subject: x"), EncodedWordsVerbatim, MaildirWithoutTmp (cur and   *)
 (*   new suffice), MessageSelectorUnchecked (|/MBOX-MESSAGE/n works on any file: docstring   *)
 (*   of MessageHandler.canhandlerequest), LeadingZeros ("01" = 1).                           *)
@@ -232,18 +233,33 @@ NameOf(p) ==
     ELSE LET v == Sanitise(EightToRepl(HeaderValue(SubjectHdrs(p)[1]))) IN IF v = "" THEN NoSubject ELSE v
 
 (* ---- message.as_bytes() ---------------------------------------------------------------- *)
+\* Headers go through email.header.Header.encode (compat32 policy, 78 columns): short lines come back as they are
+\* ("Name: value", continuation lines kept, every terminator LF); a line longer than 78 columns is folded again -
+\* modelled for the only long shape of this alphabet, a value that is ONE token: it moves to a continuation line
+\* (named deviation Refolds).  Values with 8-bit bytes are written back raw.
+MaxLine == 78
+OneToken(v) == Len(v) > 0 /\ \A j \in 1..Len(v) : Ch(v, j) \notin (ReSpace \cup {";", ","})
 ServeHdr(h) ==
-    LET n == Len(h.ls) IN
-    <<Ln(h.name \o ": " \o FirstValue(h), IF n = 1 THEN "lf" ELSE h.ls[1].nl)>>
-    \o [j \in 1..(n - 1) |-> Ln(h.ls[j + 1].s, IF j + 1 = n THEN "lf" ELSE h.ls[j + 1].nl)]
+    LET n == Len(h.ls)
+        v == FirstValue(h)
+    IN IF n = 1 /\ Len(h.name) + 2 + Len(v) > MaxLine /\ OneToken(v) /\ ~Contains(v, "@")
+       THEN <<Ln(h.name \o ": ", "lf"), Ln(" " \o v, "lf")>>
+       ELSE <<Ln(h.name \o ": " \o v, "lf")>> \o [j \in 1..(n - 1) |-> Ln(h.ls[j + 1].s, "lf")]
 Serve(p) ==
     Flatten([a \in 1..Len(p.hdrs) |-> ServeHdr(p.hdrs[a])]) \o <<BlankLf>>
     \o [j \in 1..Len(p.body) |-> Ln(p.body[j].s, IF p.body[j].nl = "" THEN "" ELSE "lf")]
 Served(m) == Serve(Parse(m))
-\* the equivalence "the same message": terminators, header spacing, mboxo quoting, trailing blank lines
+\* the equivalence "the same message": header fields equal up to folding and white space, body lines equal up to
+\* their terminators and mboxo quoting, trailing blank lines ignored
 RECURSIVE DropTrailingBlank(_)
 DropTrailingBlank(ls) == IF Len(ls) > 0 /\ ls[Len(ls)].s = "" THEN DropTrailingBlank(SubSeq(ls, 1, Len(ls) - 1)) ELSE ls
-Canon(m) == LET sv == Served(m) IN DropTrailingBlank([j \in 1..Len(sv) |-> Ln(MboxQuote(sv[j].s), "lf")])
+CanonHdr(h) == Ln(h.name \o ": " \o Strip(Sanitise(HeaderValue(h))), "lf")
+Canon(m) ==
+    LET p == Parse(m) IN
+    DropTrailingBlank([a \in 1..Len(p.hdrs) |-> CanonHdr(p.hdrs[a])] \o <<BlankLf>>
+                      \o [j \in 1..Len(p.body) |-> Ln(MboxQuote(p.body[j].s), "lf")])
+\* names compared up to surrounding blanks (a folded header unfolds with a leading blank)
+SameName(a, b) == Strip(a) = Strip(b)
 
 (* ---- folders, selectors, numbers -------------------------------------------------------- *)
 Dir == "/c"
